@@ -30,7 +30,7 @@ class Poly(object):
         if isinstance(o, Poly):
             return o
         if isinstance(o, (int, F)) and not isinstance(o, bool):
-            return Poly(o)
+            return self.__class__(o)
         return None
 
     def __add__(self, o):
@@ -41,13 +41,13 @@ class Poly(object):
         t = dict(self.t)
         for k, v in o.t.items():
             t[k] = t.get(k, 0) + v
-        return Poly(t)
+        return self.__class__(t)
 
     __radd__ = __add__
 
     def __neg__(self):
         Poly.ops += 1
-        return Poly({k: -v for k, v in self.t.items()})
+        return self.__class__({k: -v for k, v in self.t.items()})
 
     def __sub__(self, o):
         o = self._coerce(o)
@@ -74,7 +74,7 @@ class Poly(object):
                     d[n] = d.get(n, 0) + e
                 k = tuple(sorted(d.items()))
                 t[k] = t.get(k, 0) + v1 * v2
-        return Poly(t)
+        return self.__class__(t)
 
     __rmul__ = __mul__
 
@@ -110,3 +110,9 @@ class Poly(object):
             m = "*".join(n if e == 1 else "%s^%d" % (n, e) for n, e in k)
             out.append(("%s*%s" % (v, m)) if m and v != 1 else (m or str(v)))
         return " + ".join(out)
+
+
+
+class Poly2(Poly):
+    """a second, different user-defined ring type (same arithmetic): a process may well use two"""
+    __slots__ = ()
